@@ -357,7 +357,7 @@ pub fn run_roundtrip(ctx: &Ctx, rep: &mut Report, unit: &mut usize) {
 fn run_grid(ctx: &Ctx, rep: &mut Report, unit: &mut usize, roundtrip_only: bool) {
     let prop = ctx.prop.clone();
     let max_len = if roundtrip_only { 1 } else { ctx.tier.pick(2, 3) };
-    let total = if roundtrip_only { ctx.tier.pick(4usize << 20, 32 << 20) } else { ctx.tier.pick(8usize << 20, 64 << 20) };
+    let total = if roundtrip_only { ctx.tier.pick(2usize << 20, 32 << 20) } else { ctx.tier.pick(8usize << 20, 64 << 20) };
     let max_calls = ctx.tier.pick(100_000usize, 2_000_000);
     let scheds = schedules(max_len);
     let mut configs = 0u64;
